@@ -14,6 +14,7 @@ int fstat(int fd, struct stat *buf)
 	buf->st_size = vg_file_size;
 	return 0;
 }
+static int vg_maps, vg_fds; static int vg_opened_fd;
 void *mmap(void *addr, size_t len, int prot, int flags, int fd, off_t off)
 {
 	VG_P("C19", len == (size_t)vg_file_size && off == 0, "the whole file and nothing more is mapped");
@@ -23,7 +24,6 @@ void *mmap(void *addr, size_t len, int prot, int flags, int fd, off_t off)
 	vg_maps++;
 	return vg_map;
 }
-static int vg_maps, vg_fds; static int vg_opened_fd;
 int munmap(void *addr, size_t len) { VG_A(addr == vg_map, "munmap of the mapping"); vg_maps--; return 0; }
 int open(const char *path, int flags, ...) { int fd = nondet_int(); __CPROVER_assume(fd >= -1); if (fd >= 0) { vg_fds++; vg_opened_fd = fd; } return fd; }
 int close(int fd) { VG_P("C18", fd == vg_opened_fd && vg_fds == 1, "only the descriptor the reader opened itself is closed, once"); vg_fds--; return 0; }
